@@ -2,9 +2,9 @@
    (Lang/LowerProof.v: eval_ssa (lower p) = exec_mini p) composed with the
    circuit-generation theorem (Lang/CircGenProof.v), and a concrete program
    meeting all hypotheses (non-vacuity). *)
-From Coq Require Import ZArith NArith List Bool Arith.
+From Coq Require Import ZArith NArith List Bool Arith Lia.
 From Mpc Require Import Lang.Mini Lang.Ssa Lang.Lower Lang.LowerProof Lang.CircGen Lang.CircGenProof
-  Builders.Emit.
+  Lang.CircEmbed Builders.Emit.
 Import ListNotations.
 
 Theorem compile_correct p inp :
@@ -123,3 +123,164 @@ Example ex_ssa_gmw_runs :
   = eval_ssa ex_ssa_gmw [200; 249; 0x5a]%N /\
   eval_ssa ex_ssa_gmw [200; 249; 0x5a]%N = [51290; 1; 6; 143; 1]%N.
 Proof. vm_compute. split; reflexivity. Qed.
+
+(* ---- circ: native circuits ----
+   Mini has no native call (the reference language of C03 is the documented
+   core), so compile_correct says nothing new about circ; the statement for
+   programs WITH circ steps is circuitgen_correct itself (cg_wf now admits
+   them).  Two more statements make its content for circ explicit:
+   [circ_call_correct]: for EVERY sub-circuit meeting circ_ok and every split of
+   its input wires into arguments, the program that consists of one call of it
+   compiles to a circuit that computes exactly Circuit.eval_plain of the
+   sub-circuit (all inputs) — the embedding alone neither loses nor reorders a
+   wire; and a concrete program (narrow constant argument, two results, a
+   following addition) evaluated in the kernel on all its inputs, both targets. *)
+Fixpoint circ_args (k : nat) (ins : list nat) : list opnd :=
+  match ins with
+  | [] => []
+  | w :: r => OVar k (u w) :: circ_args (S k) r
+  end.
+
+Definition circ_call (ins : list nat) (c : Mpc.Circuit.Circuit.circuit) : sprog :=
+  mkSprog ins
+    [mkInstr (Ocirc ins c) (circ_args 0 ins) (u (Mpc.Circuit.Circuit.noutputs c)) 0]
+    [OVar (length ins) (u (Mpc.Circuit.Circuit.noutputs c))].
+
+Lemma args_fit_circ_args : forall ins k, args_fit (circ_args k ins) ins = true.
+Proof.
+  induction ins as [|w r IH]; intros k; [reflexivity|]. cbn [circ_args args_fit].
+  rewrite IH, andb_true_r. apply Nat.leb_le. cbn. apply le_n.
+Qed.
+
+Lemma bits_val_lt l : (bits_val l < 2 ^ N.of_nat (length l))%N.
+Proof.
+  induction l as [|b l IH]; cbn [length bits_val].
+  - cbn. lia.
+  - rewrite Mpc.Builders.EmitProof.pow2_S. pose proof (Mpc.Builders.EmitProof.b2n_le1 b). lia.
+Qed.
+
+Lemma nbits_norm w v : nbits w (norm w v) = bits_of_N w v.
+Proof.
+  apply (nth_ext _ _ false false).
+  - rewrite nbits_length, bits_of_N_length. reflexivity.
+  - rewrite nbits_length. intros k Hk. rewrite nbits_nth, bits_of_N_nth, norm_testbit by exact Hk.
+    replace (Nat.ltb k w) with true by (symmetry; apply Nat.ltb_lt; exact Hk). reflexivity.
+Qed.
+
+Lemma circ_input_args : forall ins inp pre,
+  circ_input (pre ++ init_vals ins inp) (circ_args (length pre) ins) ins = input_bits ins inp.
+Proof.
+  induction ins as [|w r IH]; intros inp pre; [reflexivity|].
+  assert (X : exists v vr, input_bits (w :: r) inp = bits_of_N w v ++ input_bits r vr /\
+                           init_vals (w :: r) inp = (w, norm w v) :: init_vals r vr).
+  { destruct inp as [|v vr]; [exists 0%N, []|exists v, vr]; cbn [input_bits init_vals];
+      (split; [try rewrite bits_of_N_0; reflexivity
+              | try (unfold norm; rewrite N.mod_0_l by apply pow2_nz); reflexivity]). }
+  destruct X as (v & vr & EB & EV). rewrite EB, EV.
+  cbn [circ_args circ_input hd tl]. f_equal.
+  - cbn [opnd_val]. rewrite app_nth2 by lia. rewrite Nat.sub_diag. cbn [nth].
+    unfold resize. cbn [u s_signed s_bits andb]. rewrite !norm_norm_le by lia. apply nbits_norm.
+  - specialize (IH vr (pre ++ [(w, norm w v)])). rewrite app_length in IH. cbn [length] in IH.
+    rewrite Nat.add_1_r, <- app_assoc in IH. cbn [app] in IH. exact IH.
+Qed.
+
+Theorem circ_call_correct ins c inp :
+  circ_ok c = true -> tot ins = Mpc.Circuit.Circuit.ninputs c -> (1 <= Mpc.Circuit.Circuit.ninputs c)%nat ->
+  eval_circuit (circuit_of_ssa (circ_call ins c)) (input_bits ins inp)
+  = [bits_val (Mpc.Circuit.Circuit.eval_plain c (input_bits ins inp))].
+Proof.
+  intros OK TI NI.
+  assert (WF : cg_wf (circ_call ins c) = true).
+  { unfold cg_wf, circ_call. cbn [sp_inputs sp_code forallb]. rewrite andb_true_r.
+    apply andb_true_iff. split.
+    - apply Nat.leb_le. change (total_bits ins) with (tot ins). lia.
+    - unfold cg_wf_instr. cbn [i_op i_args i_out s_bits u].
+      rewrite args_fit_circ_args, OK, !Nat.eqb_refl, TI, Nat.eqb_refl. reflexivity. }
+  change ins with (sp_inputs (circ_call ins c)) at 2.
+  rewrite (circuitgen_correct _ inp WF).
+  unfold eval_ssa, circ_call. cbn [sp_code sp_inputs sp_rets map run_code fold_left].
+  unfold step. cbn [i_out s_bits u]. f_equal.
+  set (vs0 := init_vals ins inp).
+  assert (L0 : length vs0 = length ins).
+  { unfold vs0. clear. revert inp. induction ins as [|w r IH]; intros inp; [reflexivity|].
+    destruct inp; cbn [init_vals length]; rewrite IH; reflexivity. }
+  cbn [opnd_val]. rewrite app_nth2 by lia. rewrite L0, Nat.sub_diag. cbn [nth].
+  unfold resize. cbn [u s_signed s_bits andb]. rewrite !norm_norm_le by lia.
+  unfold eval_instr. cbn [i_op i_args].
+  pose proof (circ_input_args ins inp []) as CI. cbn [app length] in CI. fold vs0 in CI. rewrite CI.
+  apply norm_small. rewrite pow2_eq.
+  replace (Mpc.Circuit.Circuit.noutputs c)
+    with (length (Mpc.Circuit.Circuit.eval_plain c (input_bits ins inp)))
+    by (unfold Mpc.Circuit.Circuit.eval_plain, Mpc.Circuit.Circuit.output_wires; rewrite map_length, seq_length; reflexivity).
+  apply bits_val_lt.
+Qed.
+
+(* a 2-bit adder with carry in / carry out as a native circuit (all five gate
+   kinds): inputs a (wires 0,1), b (2,3), cin (4); outputs sum (13,14), cout (15) *)
+Definition ex_adder2 : Mpc.Circuit.Circuit.circuit :=
+  let g := Mpc.Circuit.Circuit.mkGate in
+  Mpc.Circuit.Circuit.mkCircuit 16 5 3
+    ([ g 0 2 5 Mpc.Circuit.Circuit.XOR;  g 0 2 6 Mpc.Circuit.Circuit.AND;
+      g 5 4 7 Mpc.Circuit.Circuit.AND;  g 6 7 8 Mpc.Circuit.Circuit.OR;
+      g 1 3 9 Mpc.Circuit.Circuit.XNOR; g 9 0 10 Mpc.Circuit.Circuit.INV;
+      g 1 3 11 Mpc.Circuit.Circuit.AND; g 10 8 12 Mpc.Circuit.Circuit.AND;
+      g 5 4 13 Mpc.Circuit.Circuit.XOR; g 10 8 14 Mpc.Circuit.Circuit.XOR;
+      g 11 12 15 Mpc.Circuit.Circuit.OR ])%nat.
+
+(* main(a uint2, c uint1): s, k := native("adder2", a, 1, c); return s, k, s + a, <all result wires>
+   — the constant 1 has one wire and is zero padded to the 2-bit input b; the
+   two results are the slices [0,2) and [2,3) of the value circ defines *)
+Definition ex_circ : sprog :=
+  mkSprog [2; 1]%nat
+    [ mkInstr (Ocirc [2; 2; 1]%nat ex_adder2) [OVar 0 (u 2); OConst 1 1 (u 1); OVar 1 (u 1)] (u 3) 0;
+      mkInstr Oslice [OVar 2 (u 3); OConst 32 0 (sg 32); OConst 32 2 (sg 32)] (u 2) 0;
+      mkInstr Oslice [OVar 2 (u 3); OConst 32 2 (sg 32); OConst 32 3 (sg 32)] (u 1) 0;
+      mkInstr Ouadd [OVar 3 (u 2); OVar 0 (u 2)] (u 2) 0 ]
+    [OVar 3 (u 2); OVar 4 (u 1); OVar 5 (u 2); OVar 2 (u 3)].
+
+Definition ex_circ_inputs : list (list N) :=
+  [[0; 0]; [1; 0]; [2; 0]; [3; 0]; [0; 1]; [1; 1]; [2; 1]; [3; 1]]%N.
+
+Example ex_circ_wf : circ_ok ex_adder2 = true /\ cg_wf ex_circ = true /\ cg_wf_tg true ex_circ = true.
+Proof. vm_compute. repeat split; reflexivity. Qed.
+
+(* all 8 inputs, both targets; a + 1 + c on 2 bits, the carry, (a + 1 + c) + a, and the raw result *)
+Example ex_circ_runs :
+  map (fun v => eval_circuit (circuit_of_ssa ex_circ) (input_bits [2; 1]%nat v)) ex_circ_inputs
+  = map (eval_ssa ex_circ) ex_circ_inputs /\
+  map (fun v => eval_circuit (circuit_of_ssa_gen Mpc.Gen.Thresholds.multiplierArrayTresholds 0 true ex_circ)
+                             (input_bits [2; 1]%nat v)) ex_circ_inputs
+  = map (eval_ssa ex_circ) ex_circ_inputs /\
+  map (eval_ssa ex_circ) ex_circ_inputs
+  = [[1; 0; 1; 1]; [2; 0; 3; 2]; [3; 0; 1; 3]; [0; 1; 3; 4];
+     [2; 0; 2; 2]; [3; 0; 0; 3]; [0; 1; 2; 4]; [1; 1; 0; 5]]%N.
+Proof. vm_compute. repeat split; reflexivity. Qed.
+
+(* what circ_ok excludes beyond Circuit.wf: a second write to an intermediate
+   wire (the Go compiler panics there: "wire input gate already set") and an
+   output wire that is an input wire *)
+Definition ex_overwrite : Mpc.Circuit.Circuit.circuit :=
+  let g := Mpc.Circuit.Circuit.mkGate in
+  Mpc.Circuit.Circuit.mkCircuit 4 2 1
+    ([ g 0 1 2 Mpc.Circuit.Circuit.XOR; g 0 1 2 Mpc.Circuit.Circuit.AND; g 2 0 3 Mpc.Circuit.Circuit.XOR ])%nat.
+Definition ex_passthrough : Mpc.Circuit.Circuit.circuit := Mpc.Circuit.Circuit.mkCircuit 2 2 1 [].
+
+Example ex_circ_ok_excludes :
+  Mpc.Circuit.Circuit.wf ex_overwrite = true /\ circ_ok ex_overwrite = false /\
+  Mpc.Circuit.Circuit.wf ex_passthrough = true /\ circ_ok ex_passthrough = false.
+Proof. vm_compute. repeat split; reflexivity. Qed.
+
+(* the side condition of a circ instruction, spelled out *)
+Lemma cg_wf_circ ins c args out aux :
+  cg_wf_instr (mkInstr (Ocirc ins c) args out aux) = true <->
+  args_fit args ins = true /\ tot ins = Mpc.Circuit.Circuit.ninputs c /\
+  s_bits out = Mpc.Circuit.Circuit.noutputs c /\ circ_ok c = true.
+Proof.
+  unfold cg_wf_instr. cbn [i_op i_args i_out]. rewrite !andb_true_iff, !Nat.eqb_eq. tauto.
+Qed.
+
+(* the meaning of circ in Lang/Ssa.v, spelled out *)
+Lemma circ_instr_meaning vs ins c args out aux :
+  eval_instr vs (mkInstr (Ocirc ins c) args out aux)
+  = bits_val (Mpc.Circuit.Circuit.eval_plain c (circ_input vs args ins)).
+Proof. reflexivity. Qed.
